@@ -1,5 +1,6 @@
 import HapVerif.Model.Tlv8Struct
 import HapVerif.Proofs.Tlv8Struct
+import HapVerif.Proofs.Tlv8Array
 import HapVerif.Gen.Schemas
 import HapVerif.Proofs.Tlv
 
@@ -12,8 +13,8 @@ known findings as counterexample theorems, and the **generic round-trip theorem*
 (`C16_generic_roundtrip`): for every schema with distinct byte-sized TLV types and every value whose set
 fields round-trip through a non-empty encoding, `decode (encode v) = v` - with the field-level
 hypothesis discharged for every scalar type on its whole domain and inherited by struct-typed fields
-(`C16_field_roundtrips`).  Still by per-class kernel check and differential streams only: fields that
-are *lists* of structs (`tlv_array` splitting at the `00 00` separators). -/
+(`C16_field_roundtrips`) and, for fields that are *lists* of structs, reduced to the items by
+`C16_array_split` / `C16_list_field_roundtrip` (`tlv_array` at the `00 00` separators). -/
 
 namespace HapVerif.C16
 open HapVerif HapVerif.Tlv8
@@ -156,6 +157,26 @@ theorem C16_field_roundtrips :
       encVal (.struct (.mk fs)) (.struct (.mk vs)) = .ok (cat (segsOf fs es)) ∧ cat (segsOf fs es) ≠ [] ∧
       decVal (.struct (.mk fs)) (cat (segsOf fs es)) = .ok (.struct (.mk vs))) :=
   ⟨field_uint, field_buint16, field_bytes, field_str, field_enum, field_struct⟩
+
+/-- `tlv_array` splits a separator-joined list of canonical item encodings back into exactly the items: any
+    number of items, each of any size (item schemas have no field of TLV type 0, the separator) -/
+theorem C16_array_split (encs : List (List (UInt8 × Bytes))) (hne : encs ≠ []) (hg : ∀ e ∈ encs, GoodItem e) :
+    tlvArray (joinItems (encs.map cat)) = .ok (encs.map cat) :=
+  tlvArray_joinItems encs hne hg
+
+/-- a list-of-structs field (`Sequence[TLVStruct]`) round-trips whenever each item does: together with
+    `C16_generic_roundtrip` and `C16_field_roundtrips` this covers every field type of the package except the
+    packed `Sequence[u16]` of the known finding -/
+theorem C16_list_field_roundtrip (fs : List (Nat × FieldTy)) (hnd : (fs.map (·.1)).Nodup)
+    (hlt : ∀ f ∈ fs, f.1 < 256) (hnz : ∀ f ∈ fs, f.1 ≠ 0)
+    (items : List (List (Option Val) × List (Option Bytes))) (hne : items ≠ [])
+    (henc : ∀ it ∈ items, Enc fs it.1 it.2 ∧ segsOf fs it.2 ≠ []) :
+    encVal (.seqStruct (.mk fs)) (.seq (items.map (fun it => SVal.mk it.1))) =
+      .ok (joinItems (items.map (fun it => cat (segsOf fs it.2)))) ∧
+    joinItems (items.map (fun it => cat (segsOf fs it.2))) ≠ [] ∧
+    decVal (.seqStruct (.mk fs)) (joinItems (items.map (fun it => cat (segsOf fs it.2)))) =
+      .ok (.seq (items.map (fun it => SVal.mk it.1))) :=
+  field_seqStruct fs hnd hlt hnz items hne henc
 
 /-- non-vacuity and nesting: a struct with an integer, a byte string of ANY length and a nested struct -/
 example (x y : Nat) (b : Bytes) (hx : x < 256) (hy : y < 65536) (hb : b ≠ []) :
